@@ -1,5 +1,5 @@
 """C12 — RAG chunks cover the document once, in order, with true metadata
-(Chunking.tla, ChunkingMC.tla, ChunkingTrace.tla)."""
+(Chunking.tla, ChunkingMC.tla, ChunkingTrace.tla, ChunkPack.tla)."""
 import json
 from concurrent.futures import ThreadPoolExecutor
 from lib import vlib
@@ -10,9 +10,13 @@ EVIDENCE = dict(
     rule="cases = every document TLC builds from the 9-letter alphabet {H1,H2,H3,P normal,P > max,L,T,I,new page} up to "
          "MaxLen letters in two page-numbering schemes (exhaustive), every document of <= 4 letters over {H1, one-word P, "
          "normal P, L(3), L(70), new page} (list introductions, oversized lists), plus -simulate documents over the wide alphabet "
-         "(levels 1-6, four paragraph size classes, images without description, L(70), up to 12 letters); each is materialised as a "
-         "model.Document and chunked by rag.ChunkDocument, ChunkDocumentWithConfig (all presets), NewChunker().Chunk and "
-         "NewChunkerWithConfig; non-trivial = document with >= 2 heading levels or a paragraph above the maximum; distinct by "
+         "(levels 1-6, twelve paragraph size classes, images without description, L(70), near-full list, up to 12 letters); "
+         "every document of <= 3 (thorough 4) letters over the boundary alphabet {H1, P > max, P short (< min), P near-full, "
+         "P = max, P = max+1, P = min-1, P = min, P = (max-2)/2, L(3), near-full list, new page}, whose byte lengths the harness "
+         "derives exactly from the Max/Min of each configuration under test; each is materialised as a "
+         "model.Document and chunked by rag.ChunkDocument, ChunkDocumentWithConfig (all presets + a 300/40 custom one), "
+         "NewChunker().Chunk and NewChunkerWithConfig (600/50 and 240/40); non-trivial = document with >= 2 heading levels or a "
+         "paragraph at/above the maximum or nearly filling a chunk; distinct by "
          "element sequence + page numbers. Random larger documents are validated only through ChunkingTrace.tla.",
     assumptions=["content identity is observed through unique word tokens scanned in chunk texts after removing whitespace",
                  "rag.Chunker (layout based) is only given documents its input can represent without loss: headings, "
@@ -34,6 +38,11 @@ NOTES = """Interpretation choices (soundness first):
   headings first, then paragraphs, then lists, and no tables/images (nothing else is observable from its input).
 * Chunks without any content unit are not accepted (k >= 1 in the contract); documents never contain elements that would
   legitimately produce one.
+* Paragraph sizes are symbolic classes in the spec (1 word, normal, > max, > 3 max, and the boundary classes short/near-full/
+  = max/= max+1/= min-1/= min/half); the harness turns a class into words (classes 1-4) or into an exact byte length computed
+  from the maximum and minimum chunk size of the configuration under test, padding the last token (never a word of its own).
+  ChunkPack.tla is the byte-size model of the layout chunker's accumulate/flush/orphan-merge loop; its "drop" variant (a short
+  pending piece that does not fit into the previous chunk is discarded) is the negative control for that class of change.
 * Page numbers: model.Page.Number is the page the content came from; documents are built both by assigning Document.Pages
   and through Document.AddPage with the numbers preset (as extractor.go does)."""
 
@@ -102,13 +111,19 @@ def run(ctx):
     jobs = [("ChunkingMC", "Chunking_mc_contract.cfg", {}),
             ("ChunkingMC", "Chunking_mc_quick.cfg" if q else "Chunking_mc_thorough.cfg", {}),
             ("ChunkingMC", "Chunking_mc_impl_len.cfg", {"expect_violation": True}),
-            ("ChunkingMC", "Chunking_mc_impl_share.cfg", {"expect_violation": True})]
-    with ThreadPoolExecutor(max_workers=4) as ex:
-        futs = [ex.submit(ctx.tlc, m, c, workers=4, timeout=3000, count=False, **kw) for m, c, kw in jobs]
+            ("ChunkingMC", "Chunking_mc_impl_share.cfg", {"expect_violation": True}),
+            # the packing loop of the layout chunker with byte sizes around Min/Max; the variant that discards a short
+            # pending piece which does not fit into the previous chunk must be refuted
+            ("ChunkPack", "ChunkPack_mc_quick.cfg" if q else "ChunkPack_mc_thorough.cfg", {}),
+            ("ChunkPack", "ChunkPack_mc_drop.cfg", {"expect_violation": True})]
+    with ThreadPoolExecutor(max_workers=6) as ex:
+        futs = [ex.submit(ctx.tlc, m, c, workers=3, timeout=3000, count=False, **kw) for m, c, kw in jobs]
         # R2 emission runs meanwhile
         gen = ctx.tlc("ChunkingMC", "Chunking_gen_quick.cfg" if q else "Chunking_gen_thorough.cfg", workers=1,
                       collect=True, count=False, timeout=3000)
         lists = ctx.tlc("ChunkingMC", "Chunking_gen_lists.cfg", workers=1, collect=True, count=False, timeout=3000)
+        bound = ctx.tlc("ChunkingMC", "Chunking_gen_bound_quick.cfg" if q else "Chunking_gen_bound_thorough.cfg", workers=1,
+                        collect=True, count=False, timeout=3000)
         sim = ctx.tlc("ChunkingMC", "Chunking_sim.cfg", workers=1, simulate=200 if q else 4000, depth=13,
                       collect=True, count=False, timeout=3000)
         for f, (_, _, kw) in zip(futs, jobs):
@@ -118,7 +133,7 @@ def run(ctx):
                 ctx.transitions += r["generated"]
     ctx.exhaustive = True
     seen, cases = set(), []
-    for c in gen["cases"] + lists["cases"] + sim["cases"]:
+    for c in gen["cases"] + lists["cases"] + bound["cases"] + sim["cases"]:
         k = json.dumps([c["doc"], c["pages"]])
         if k not in seen:
             seen.add(k)
@@ -127,6 +142,7 @@ def run(ctx):
         raise vlib.MachineryError("TLC emitted no documents")
     ctx.extra["cases_exhaustive"] = len(gen["cases"])
     ctx.extra["cases_exhaustive_lists"] = len(lists["cases"])
+    ctx.extra["cases_exhaustive_boundary_sizes"] = len(bound["cases"])
     ctx.extra["cases_simulated"] = len(sim["cases"])
     tm = 80 if q else 40
     for i, c in enumerate(cases):
